@@ -2,7 +2,7 @@
 import ast
 
 from ..model import AnalysisError, dotted, unparse
-from ..util import U, enum_paths, walk_no_nested
+from ..util import POS, FACTS, FACTS_I, U, enum_paths, walk_no_nested
 from ..paths import call_attr, call_name
 
 V = 'scales/varz.py'
@@ -135,14 +135,14 @@ def r2(ctx):
   vm = prog.func(V, 'VarzMetric.__init__')
   wiring = {}
   for ev, ex in enum_paths(ctx, vm):
-    fs = [(U(e.node).replace(' ', ''), e.info) for e in ev if e.kind == 'cond']
+    fs = FACTS(ev)
     asg = [U(e.node.value) for e in ev if e.kind == 'stmt' and isinstance(e.node, ast.Assign) and U(e.node.targets[0]) == 'self._fn'
            and U(e.node.value).startswith('VarzReceiver.')]
     if not asg:
       continue
     if ('self.VARZ_TYPE==VarzType.Gauge', True) in fs:
       wiring.setdefault('Gauge', set()).add(asg[0])
-    elif any(c.startswith('self.VARZ_TYPEin') and t for c, t in fs):
+    elif any(c.startswith('self.VARZ_TYPEin') and t for c, t in POS(fs)):
       wiring.setdefault('Percentile', set()).add(asg[0])
     else:
       wiring.setdefault('Other', set()).add(asg[0])
